@@ -99,9 +99,15 @@ class Merge(Expr):
             predicate_columns = self._predicate_columns(predicate)
             if predicate_columns is None:
                 return False
-            if predicate_columns.issubset(self.left.columns):
+            # The filter goes to the input whose (un-suffixed) columns the
+            # predicate refers to, see _simplify_up
+            if predicate_columns.issubset(
+                self.left.columns
+            ) and not self._renamed_by_suffix(predicate_columns, "left"):
                 return self.how in ("left", "inner", "leftsemi")
-            elif predicate_columns.issubset(self.right.columns):
+            elif predicate_columns.issubset(
+                self.right.columns
+            ) and not self._renamed_by_suffix(predicate_columns, "right"):
                 return self.how in ("right", "inner")
             elif len(predicate_columns) > 0:
                 return False
@@ -114,6 +120,16 @@ class Merge(Expr):
                 x()._name for x in dependents[self._name] if x() is not None
             }
         return False
+
+    def _renamed_by_suffix(self, columns, side):
+        # Whether one of the columns of the given input shows up under a
+        # suffixed name in the result (the plain name then belongs to the other input)
+        suffix = self.suffixes[0] if side == "left" else self.suffixes[1]
+        other = self.right if side == "left" else self.left
+        return suffix != "" and any(
+            f"{col}{suffix}" in self.columns and col in other.columns
+            for col in columns
+        )
 
     def _predicate_columns(self, predicate):
         if isinstance(predicate, (Projection, Unaryop, Isin)):
